@@ -70,6 +70,34 @@ func lookup(cl *s3c.Client, ak, sk string) (accepted bool, resp *s3c.Resp) {
 	return r.Err == nil && r.Status == 200, r
 }
 
+// lookupForms: the same question asked with the other two ways of proving the secret - a presigned URL, and a
+// streaming upload whose every chunk is signed with a key derived from the secret. ok[form] = accepted.
+func lookupForms(cl *s3c.Client, ak, sk string) (ok map[string]bool, resps map[string]*s3c.Resp) {
+	u := cl.With(ak, sk)
+	ok, resps = map[string]bool{}, map[string]*s3c.Resp{}
+	p := u.Do(&s3c.Req{Method: "GET", Path: "/", Presign: true})
+	ok["presigned"], resps["presigned"] = p.Err == nil && p.Status == 200, p
+	body := []byte(strings.Repeat("chunk-signed probe ", 700))
+	ch := u.Do(&s3c.Req{Method: "PUT", Path: s3c.ObjPath(openBucket, "form-probe-"+ak), Body: body, Stream: &s3c.Stream{Mode: s3c.StreamSigned, ChunkSizes: []int{4096}}})
+	ok["chunk-signed-upload"], resps["chunk-signed-upload"] = ch.OK(), ch
+	return
+}
+
+// crossedChunks: the request is signed with the current secret, the chunks with another one (a revoked secret): the
+// chunk signatures do not prove the current secret, the upload must be refused.
+func crossedChunks(cl *s3c.Client, ak, sk, chunkSecret string) *s3c.Resp {
+	body := []byte(strings.Repeat("chunks signed with another secret ", 500))
+	st := &s3c.Stream{Mode: s3c.StreamSigned, ChunkSizes: []int{4096}}
+	rq := &s3c.Req{Method: "PUT", Path: s3c.ObjPath(openBucket, "crossed-probe-"+ak), Body: body, Stream: st}
+	u := cl.With(ak, sk)
+	rq.Tamper = func(b *s3c.Built) {
+		amz := b.Header.Get("X-Amz-Date")
+		day := amz[:8]
+		b.Body = st.Encode(body, s3c.SigningKey(chunkSecret, day, u.Region, "s3"), amz, day+"/"+u.Region+"/s3/aws4_request", b.Sig)
+	}
+	return u.Do(rq)
+}
+
 type listUsers struct {
 	Accounts []struct {
 		Access  string
@@ -136,12 +164,31 @@ func (w *world) judgeAccount(id, when, ak string, a *acct, oldSecrets []string) 
 		c.Violation(when+":current-secret-refused", id, det(map[string]any{"resp": r.String()}))
 		return
 	}
+	forms, fr := lookupForms(cl, ak, a.Secret)
+	for f, ok := range forms {
+		if fr[f].Err != nil {
+			c.Inconclusive("transport error in lookup (" + f + ")")
+			return
+		}
+		if !ok {
+			c.Violation(when+":current-secret-refused:"+f, id, det(map[string]any{"form": f, "resp": fr[f].String(), "code": fr[f].ErrCode()}))
+		}
+	}
 	for _, s := range oldSecrets {
 		if s == a.Secret {
 			continue
 		}
 		if ok, r := lookup(cl, ak, s); ok {
 			c.Violation(when+":old-secret-accepted", id, det(map[string]any{"secret": s, "resp": r.String()}))
+		}
+		of, or := lookupForms(cl, ak, s)
+		for f, ok := range of {
+			if ok {
+				c.Violation(when+":old-secret-accepted:"+f, id, det(map[string]any{"form": f, "secret": s, "resp": or[f].String()}))
+			}
+		}
+		if r := crossedChunks(cl, ak, a.Secret, s); r.OK() {
+			c.Violation(when+":old-secret-accepted:chunk-signatures", id, det(map[string]any{"chunks_signed_with": s, "resp": r.String()}))
 		}
 	}
 	// role: admin API access iff admin
